@@ -226,7 +226,8 @@ class MTSPEnv(RL4COEnvBase):
     def _get_reward(self, td, actions=None) -> TensorDict:
         # With minmax, get the maximum distance among subtours, calculated in the model
         if self.cost_type == "minmax":
-            return td["reward"].squeeze(-1)
+            # reward is stored per instance with shape [batch]; squeeze(-1) would drop the batch dimension of a single instance
+            return td["reward"]
 
         # Sum of the lengths of all sub-tours: every agent leaves from and returns to the depot (node 0)
         elif self.cost_type == "sum":
